@@ -115,7 +115,24 @@ def make_loop_limit():
                         return [e], (), [("fix", state["crawls"])], None
                     return [e], (), [], None
 
+            class PostCrawler:
+                """A post-phase rule (like LT12/CP01) that always has one more fix to offer."""
+                code, name, lint_phase, is_fix_compatible = "ZZ02", "zz2", "post", True
+
+                def crawl(self, tree, dialect, fix, templated_file, ignore_mask, fname, config):
+                    # offers its fix whenever the tree it is shown does not carry it yet (like a missing final newline)
+                    e = SQLLintError("p", oc._Seg(), self, fixes=[oc._Fix()])
+                    if not getattr(tree, "post_done", False):
+                        state["post_offers"] = state.get("post_offers", 0) + 1
+                        return [e], (), [("postfix", state["post_offers"])], None
+                    return [], (), [], None
+
             def apply_fixes(tree, dialect, code, anchor_info, **kw):
+                if code == "ZZ02":
+                    t = Tree(len(versions))
+                    t.post_done = True
+                    versions.append(t)
+                    return t, (), (), True
                 how = int(fresh_int(c, f"apply{state['crawls']}", 0, 2))
                 if how == 0:
                     t = Tree(len(versions))        # a new, never seen version
@@ -130,7 +147,8 @@ def make_loop_limit():
             lmod.apply_fixes, lmod.compute_anchor_edit_info = apply_fixes, (lambda fixes: {})
             try:
                 cfg = FluffConfig(overrides={"dialect": "ansi", "runaway_limit": limit, "ignore_templated_areas": False})
-                pack = RulePack([Crawler()], {"ZZ01": {"ZZ01"}})
+                with_post = bool(fresh_bool(c, "has_post_phase_rule"))
+                pack = RulePack([Crawler()] + ([PostCrawler()] if with_post else []), {"ZZ01": {"ZZ01"}, "ZZ02": {"ZZ02"}})
                 out_tree, vs, mask, _ = Linter.lint_fix_parsed(versions[0], config=cfg, rule_pack=pack, fix=True)  # REAL
             finally:
                 lmod.apply_fixes, lmod.compute_anchor_edit_info = real_apply, real_info
@@ -141,6 +159,8 @@ def make_loop_limit():
                 all(h == 0 for h in main_changes[:limit])
             if unstable:
                 c.witness("limit_reached")
+                if with_post:
+                    c.witness("limit_reached_with_post_phase_rule")
                 return out_tree is versions[0] and all(v.fixes == [] for v in vs if isinstance(v, SQLLintError))
             c.witness("stable")
             return True
@@ -177,5 +197,5 @@ def units(tier, seed):
         bounds={"runaway_limit": "1..3", "per-loop outcome": "new version / nothing applied / back to a seen version; fixes present or not"},
         make=make_loop_limit(), replay="concrete",
         stubs=["crawler -> one violation (+ optional fix) per pass", "apply_fixes -> opaque tree versions", "compute_anchor_edit_info -> {}"],
-        witnesses_required=["limit_reached", "stable"], sharded=True, timeout_s=600))
+        witnesses_required=["limit_reached", "stable", "limit_reached_with_post_phase_rule"], sharded=True, timeout_s=600))
     return us
